@@ -17,6 +17,12 @@ const c09SDL = `type User {
   name: String
   age: Int
   books: [Book]
+  articles: [Article]
+}
+type Article {
+  title: String
+  score: Int
+  writer: User
 }
 type Book {
   title: String
@@ -46,7 +52,7 @@ type Node {
 func genC09(seed int64, tier string) *Plan {
 	r := newRng(seed, 9)
 	p := &Plan{Prop: "C09", Engine: "E5", Seed: seed, Cfg: map[string]int{}}
-	p.Cfg["ix"] = r.IntN(16) // bit0 Book.author, bit1 Book.rating, bit2 User.age, bit3 Person.passport
+	p.Cfg["ix"] = r.IntN(32) // bit0 Book.author, bit1 Book.rating, bit2 User.age, bit3 Person.passport, bit4 Article.score
 	n := 8 + r.IntN(32)
 	if tier == "quick" {
 		n = 8 + r.IntN(20)
@@ -62,8 +68,10 @@ func genC09(seed int64, tier string) *Plan {
 			p.Steps = append(p.Steps, Step{K: "relink", A: r.IntN(64), B: r.IntN(64), C: r.IntN(4)})
 		case x < 54:
 			p.Steps = append(p.Steps, Step{K: "delete", A: r.IntN(3), B: r.IntN(64)})
-		case x < 62:
+		case x < 58:
 			p.Steps = append(p.Steps, Step{K: "library", A: r.IntN(64)})
+		case x < 62:
+			p.Steps = append(p.Steps, Step{K: "article", A: r.IntN(64), B: r.IntN(9), C: r.IntN(4)})
 		case x < 72:
 			p.Steps = append(p.Steps, Step{K: "one", A: r.IntN(4), B: r.IntN(64), C: r.IntN(64)})
 		case x < 80:
@@ -71,7 +79,7 @@ func genC09(seed int64, tier string) *Plan {
 		case x < 86:
 			p.Steps = append(p.Steps, Step{K: "remote", A: r.IntN(3), B: r.IntN(64), C: r.IntN(9)})
 		case x < 91:
-			p.Steps = append(p.Steps, Step{K: "ixtoggle", A: r.IntN(4)})
+			p.Steps = append(p.Steps, Step{K: "ixtoggle", A: r.IntN(5)})
 		case x < 94:
 			p.Steps = append(p.Steps, Step{K: "restart"})
 		default:
@@ -87,7 +95,13 @@ type c09Book struct {
 	rating  float64
 }
 
+type c09Article struct {
+	writer string
+	score  int
+}
+
 type c09Run struct {
+	articles map[string]c09Article
 	p      *Plan
 	res    *Result
 	ctx    context.Context
@@ -110,7 +124,7 @@ func runC09(p *Plan, res *Result) {
 	ctx, cancel := context.WithCancel(context.Background())
 	defer cancel()
 	installRand(p.Seed)
-	r := &c09Run{p: p, res: res, ctx: ctx, colIDs: map[string]string{}, users: map[string]int{}, books: map[string]c09Book{}, libs: map[string]bool{},
+	r := &c09Run{p: p, res: res, ctx: ctx, colIDs: map[string]string{}, users: map[string]int{}, articles: map[string]c09Article{}, books: map[string]c09Book{}, libs: map[string]bool{},
 		persons: map[string]string{}, passports: map[string]bool{}, nodes: map[string]string{}, ix: map[int]bool{}, shape: map[string]bool{}}
 	for _, name := range []string{"n", "rm"} {
 		setRandStep("start|" + name)
@@ -137,7 +151,7 @@ func runC09(p *Plan, res *Result) {
 		r.n.Close()
 		r.rm.Close()
 	}()
-	for b := 0; b < 4; b++ {
+	for b := 0; b < len(c09Indexes); b++ {
 		if p.cfg("ix", 0)>>uint(b)&1 == 1 {
 			r.toggleIndex(b)
 		}
@@ -162,6 +176,7 @@ func runC09(p *Plan, res *Result) {
 
 var c09Indexes = []struct{ col, field, name string }{
 	{"Book", "author", "ix_author"}, {"Book", "rating", "ix_rating"}, {"User", "age", "ix_age"}, {"Person", "passport", "ix_passport"},
+	{"Article", "score", "ix_score"},
 }
 
 func (r *c09Run) toggleIndex(b int) {
@@ -246,6 +261,17 @@ func (r *c09Run) exec(i int, s Step) {
 			return
 		}
 		r.books[id] = c09Book{author: author, library: lib, rating: rating}
+	case "article":
+		writer := ""
+		if s.C != 0 {
+			writer = pickKey(r.users, s.A)
+		}
+		id, errs := r.gqlID(fmt.Sprintf(`mutation { create_Article(input: {title: "a%d", score: %d, writer: %s}) { _docID } }`, r.seq, s.B, lit(writer)), "create_Article")
+		if len(errs) > 0 {
+			r.res.violate("C09", "write-failed", "create-article", i, "%v", errs)
+			return
+		}
+		r.articles[id] = c09Article{writer: writer, score: s.B}
 	case "relink":
 		b := pickKey(r.books, s.A)
 		if b == "" {
@@ -371,7 +397,7 @@ func (r *c09Run) exec(i int, s Step) {
 	case "remote":
 		r.remote(i, s)
 	case "ixtoggle":
-		r.toggleIndex(mod(s.A, 4))
+		r.toggleIndex(mod(s.A, len(c09Indexes)))
 	case "restart":
 		st := r.n.Store
 		r.n.Close()
@@ -724,6 +750,10 @@ func (r *c09Run) check(i int, after string) {
 			r.res.violate("C09", "sides-disagree", "self-reference/"+cls, i, "Node %s parent=%q child=%q, links say parent=%q child=%q", id, gotP, gotC, r.nodes[id], childOf[id])
 			return
 		}
+	}
+	r.checkShapes(i, cls)
+	if len(r.res.Viols) > 0 {
+		return
 	}
 	r.shape[cls] = true
 	r.res.Stats["checkpoints"]++
